@@ -50,7 +50,9 @@ def process_signature(app, what, name, obj, options,
         parent, obj = fetch_dotted_name(name)
     except (AttributeError, ImportError):
         return sig, return_annotation
-    if isinstance(obj, instancemethod): # python 2 unbound methods
+    if isinstance(obj, instancemethod) and isinstance(parent, type):
+        # a classmethod reached through its class; a bound method found in a
+        # module or on an instance is documented as it is, without self
         obj = obj.__func__
     if (
             isinstance(parent, type) and callable(obj)
